@@ -46,6 +46,14 @@ def corpus(rng):
         "xz-trunc": lzma.compress(b"hello world\n" * 1000)[:80], "gz-then-junk": gzip.compress(b"a\n") + b"junk after member\n",
         "tsv-short": b"a\tb\n\n\t\t\t\t\t\n", "xml": b"<DOC>\n<TEXT>\n<P>\n&amp; &lt; (BEGIN BRACKET) x\n</P>\n", "words": b"the " * 20000 + b"\n",
     }
+    # WARC lengths for which header bytes + length + 4 wraps around 2^64 to 0..5 (and the same around 2^63 and 2^32)
+    for mod_, nm in ((1 << 64, "64"), (1 << 63, "63"), (1 << 32, "32")):
+        for t in range(0, 6):
+            digits = len(str(mod_ - 60))
+            hl = len(b"WARC/1.0\r\nContent-Length: \r\n\r\n") + digits
+            v = mod_ - hl - 4 + t
+            if len(str(v)) == digits:
+                c[f"warc-wrap{nm}-{t}"] = b"WARC/1.0\r\nContent-Length: %d\r\n\r\nabc\r\n\r\n" % v + b"WARC/1.0\r\nContent-Length: 1\r\n\r\nx\r\n\r\n"
     return c
 
 
@@ -75,7 +83,7 @@ def run(ctx):
     names = sorted(cps)
     n_ok = 0
     for (tool, args) in T:
-        picks = names if ctx.tier != "quick" else rng.sample(names, 9) + ["empty", "invalid-utf8", "bz2-trunc", "gz-empty"]
+        picks = names if ctx.tier != "quick" else rng.sample(names, 9) + ["empty", "invalid-utf8", "bz2-trunc", "gz-empty"] + ([n for n in names if "warc" in n] if tool.startswith("warc") else [])
         for nm in dict.fromkeys(picks):
             data = cps[nm]
             st, out, err = pvlib.run_tool([ctx.bin(tool)] + args, data, env=pvlib.san_env(), timeout=12 if ctx.tier == "quick" else 40)
